@@ -191,6 +191,13 @@ struct Weights {
     probe_pos_impact: u32,
     probe_discount: u32,
     probe_fees: u32,
+    probe_split: u32,
+    probe_open_close: u32,
+    probe_pnl: u32,
+}
+
+fn is_position_mix(mix: &str) -> bool {
+    matches!(mix, "C07" | "C08" | "C09" | "C10" | "C11" | "C12" | "C13" | "C14")
 }
 
 fn weights_for(focus: &str) -> Weights {
@@ -212,8 +219,19 @@ fn weights_for(focus: &str) -> Weights {
         probe_pos_impact: 1,
         probe_discount: 1,
         probe_fees: 1,
+        probe_split: 1,
+        probe_open_close: 1,
+        probe_pnl: 1,
     };
     match focus {
+        "C07" => Weights { increase: 24, decrease: 24, liquidate: 6, prices: 14, advance: 8, swap: 6, deposit: 5, withdraw: 3, ..base },
+        "C08" => Weights { increase: 18, decrease: 18, liquidate: 5, prices: 12, advance: 14, funding: 5, swap: 8, deposit: 6, withdraw: 4, claim: 2, ..base },
+        "C09" => Weights { increase: 20, decrease: 16, liquidate: 10, prices: 16, advance: 10, swap: 5, deposit: 5, withdraw: 3, ..base },
+        "C10" => Weights { probe_open_close: 16, increase: 12, decrease: 8, prices: 10, swap: 8, deposit: 6, withdraw: 3, ..base },
+        "C11" => Weights { probe_pnl: 16, increase: 18, decrease: 6, liquidate: 2, prices: 14, swap: 5, deposit: 5, withdraw: 3, ..base },
+        "C12" => Weights { increase: 16, decrease: 12, funding: 12, advance: 18, prices: 10, swap: 5, deposit: 5, withdraw: 3, ..base },
+        "C13" => Weights { increase: 16, decrease: 14, borrowing: 10, advance: 16, prices: 10, swap: 5, deposit: 5, withdraw: 4, ..base },
+        "C14" => Weights { increase: 16, decrease: 14, distribute: 12, advance: 16, probe_split: 8, prices: 8, swap: 4, deposit: 4, withdraw: 3, ..base },
         "C04" => Weights { swap: 40, deposit: 10, withdraw: 6, increase: 8, decrease: 6, ..base },
         "C05" => Weights { swap: 40, prices: 14, ..base },
         "C02" => Weights {
@@ -260,6 +278,16 @@ pub fn generate(seed: u64, run: u64, _tier: Tier, focus: &str) -> Generated {
         7 => ("misconfig", false, true),
         _ => ("plain", false, false),
     };
+    // 70 % of the runs use the op mix of the focus property, the rest the mix of another property (so that every
+    // oracle also sees the histories the other mixes produce)
+    let mix: &str = if rc.chance(7, 10) {
+        focus
+    } else {
+        *rc.pick(&[
+            "C02", "C03", "C04", "C05", "C06", "C07", "C08", "C09", "C10", "C11", "C12", "C13", "C14", "default",
+        ])
+    };
+    let position_mix = is_position_mix(mix);
 
     // ---- tokens and prices -------------------------------------------------------------------------------
     // long token: decimals 9 ($20..$400), 8 ($20k..$100k) or 6 ($0.5..$5); short token: 6 decimals, ~$1.
@@ -401,6 +429,17 @@ pub fn generate(seed: u64, run: u64, _tier: Tier, focus: &str) -> Generated {
             _ => [U(usd(pool_dollars) / 100), U(usd(pool_dollars) / 50)],
         });
     }
+    // position-centred mixes: keep positions openable in most runs, and allow very small positions
+    if position_mix {
+        if rc.chance(3, 4) {
+            market.reserve_factor = U(UNIT);
+            market.open_interest_reserve_factor = U(UNIT);
+        }
+        if rc.chance(1, 2) {
+            market.position.min_position_size_usd = U(0);
+            market.position.min_collateral_value = U(*rc.pick(&[0u128, UNIT / 100]));
+        }
+    }
     // ---- misconfiguration sub-batch ---------------------------------------------------------------------------
     if misconfig {
         let n = rc.range(1, 3);
@@ -432,13 +471,6 @@ pub fn generate(seed: u64, run: u64, _tier: Tier, focus: &str) -> Generated {
     let n_lps = rc.range(1, 3) as u8;
     let n_positions = rc.range(2, 8) as u8;
     let settle_before_ops = rc.chance(3, 4);
-    // 70 % of the runs use the op mix of the focus property, the rest the mix of another property (so that every
-    // oracle also sees the histories the other mixes produce)
-    let mix: &str = if rc.chance(7, 10) {
-        focus
-    } else {
-        *rc.pick(&["C02", "C03", "C04", "C05", "C06", "default"])
-    };
     let enumerate_swap_faults = focus == "C04" || mix == "C04" || rc.chance(1, 10);
 
     let cfg = Cfg {
@@ -484,9 +516,9 @@ pub fn generate(seed: u64, run: u64, _tier: Tier, focus: &str) -> Generated {
     };
 
     // sizeable first deposit in most runs
-    if rp.chance(9, 10) {
+    if rp.chance(if position_mix { 39 } else { 36 }, 40) {
         let p = walk.prices();
-        let (l, s) = match rp.below(10) {
+        let (l, s) = match rp.below(if position_mix { 30 } else { 10 }) {
             0 => (usd(pool_dollars), 0),
             1 => (0, usd(pool_dollars)),
             2 => (usd(pool_dollars) / 4, usd(pool_dollars) / 4 * 3),
@@ -506,7 +538,7 @@ pub fn generate(seed: u64, run: u64, _tier: Tier, focus: &str) -> Generated {
             steps.push(Step::Fault { k });
         }
         let p = walk.prices();
-        let table: [(u32, u8); 17] = [
+        let table: [(u32, u8); 20] = [
             (w.advance, 0),
             (w.prices, 1),
             (w.deposit, 2),
@@ -524,6 +556,9 @@ pub fn generate(seed: u64, run: u64, _tier: Tier, focus: &str) -> Generated {
             (w.probe_pos_impact, 14),
             (w.probe_discount, 15),
             (w.probe_fees, 16),
+            (w.probe_split, 17),
+            (w.probe_open_close, 18),
+            (w.probe_pnl, 19),
         ];
         let kind = *rp.weighted(&table);
         let step = match kind {
@@ -579,10 +614,28 @@ pub fn generate(seed: u64, run: u64, _tier: Tier, focus: &str) -> Generated {
             5 => {
                 let pos = rp.below(n_pos as u64) as u8;
                 let coll_long = (pos as usize / 2) % 2 == 0;
-                let size = amount_usd(&mut rp, pool_dollars / 10);
-                let leverage = *rp.weighted(&[(2, 1u128), (4, 3), (4, 10), (3, 25), (2, 50), (1, 100), (1, 500)]);
+                let size = if position_mix {
+                    let s = usd(pool_dollars);
+                    match rp.below(12) {
+                        0 => s / 5,
+                        1 | 2 => s / 20,
+                        3..=5 => s / 100 * rp.range(1, 9) as u128 / 4,
+                        6 | 7 => s / 1000 * rp.range(1, 9) as u128,
+                        8 => amount_usd(&mut rp, pool_dollars / 10),
+                        // a handful of index-token base units: decreases can round the token size to zero
+                        9 | 10 => p.index.max.0.saturating_mul(rp.range(1, 6) as u128),
+                        _ => s / 100_000,
+                    }
+                } else {
+                    amount_usd(&mut rp, pool_dollars / 10)
+                };
+                let leverage = if position_mix {
+                    *rp.weighted(&[(3, 2u128), (4, 5), (4, 10), (2, 25), (1, 50), (1, 100)])
+                } else {
+                    *rp.weighted(&[(2, 1u128), (4, 3), (4, 10), (3, 25), (2, 50), (1, 100), (1, 500)])
+                };
                 let coll_usd = size / leverage;
-                let coll_usd = if rp.chance(1, 10) { 0 } else { coll_usd };
+                let coll_usd = if rp.chance(1, if position_mix { 25 } else { 10 }) { 0 } else { coll_usd };
                 let size = if rp.chance(1, 12) { 0 } else { size };
                 let coll = usd_to_tokens(coll_usd, if coll_long { p.long.min.0 } else { p.short.min.0 });
                 let acceptable = if rp.chance(1, 8) {
@@ -681,6 +734,35 @@ pub fn generate(seed: u64, run: u64, _tier: Tier, focus: &str) -> Generated {
                     },
                 }
             }
+            17 => Step::Probe {
+                kind: ProbeKind::SplitDistribution {
+                    t1: rp.log_u64(86_400 * 30) as u32,
+                    t2: rp.log_u64(86_400 * 30) as u32,
+                },
+            },
+            18 => {
+                let is_long = rp.bool();
+                let collateral_long = rp.bool();
+                let s = usd(pool_dollars);
+                let size = match rp.below(8) {
+                    0 => s / 5,
+                    1 | 2 => s / 20,
+                    3 | 4 => s / 100,
+                    5 => s / 1000,
+                    6 => p.index.max.0.saturating_mul(rp.range(1, 6) as u128),
+                    _ => amount_usd(&mut rp, pool_dollars / 10),
+                };
+                let leverage = *rp.weighted(&[(3, 1u128), (4, 3), (4, 10), (3, 25), (2, 50), (1, 90)]);
+                let coll = usd_to_tokens(size / leverage, if collateral_long { p.long.min.0 } else { p.short.min.0 });
+                Step::Probe { kind: ProbeKind::OpenClose { is_long, collateral_long, collateral: U(coll), size_usd: U(size) } }
+            }
+            19 => Step::Probe {
+                kind: ProbeKind::PnlDirection {
+                    pos: rp.below(8) as u8,
+                    bump_bps: *rp.weighted(&[(2, 1u32), (3, 10), (4, 100), (3, 1000), (2, 5000), (1, 20_000)]),
+                    partial_bps: *rp.weighted(&[(3, 5000u32), (2, 1000), (2, 9000), (1, 1), (1, 9999), (2, 3333)]),
+                },
+            },
             _ => Step::Probe {
                 kind: ProbeKind::FeesDirect {
                     amount: U(match rp.below(6) {
